@@ -134,17 +134,19 @@ theorem branches_too_short (t : T) (rs : List Row) (h : rs.length < 2) (e rev : 
 
 /-! ### list forms of find_parent_objects / find_child_objects -/
 
-/-- `find_parent_objects([r0, r1, …])` = ascending duplicate-free list of the first components of
-the chains -/
+/-- `find_parent_objects([r0, r1, …], reverse)` = ascending duplicate-free list of the first
+components of the chains, reversed on request -/
 theorem findParent_list_spec (t : T) (rs : List Row) (h : 2 ≤ rs.length) :
     ∃ l, findParentObjectsList t rs false = .ok l ∧ l.Pairwise (· < ·) ∧ l.Nodup ∧
-      ∀ i, i ∈ l ↔ ∃ cs ∈ chains t rs, cs.head? = some i := by
+      (∀ i, i ∈ l ↔ ∃ cs ∈ chains t rs, cs.head? = some i) ∧
+      findParentObjectsList t rs true = .ok l.reverse := by
   have hb := branches_eq_chains t rs h false
   match rs, h with
   | r0 :: r1 :: rest, _ =>
     refine ⟨sortDedup (((chains t (r0 :: r1 :: rest)).map (·.map some)).filterMap firstOf),
       by simp only [findParentObjectsList, Bool.false_eq_true, if_false, hb], sortDedup_sorted _,
-      sorted_nodup (sortDedup_sorted _), ?_⟩
+      sorted_nodup (sortDedup_sorted _), ?_,
+      by simp only [findParentObjectsList, Bool.false_eq_true, if_false, if_true, hb]⟩
     intro i
     rw [mem_sortDedup, List.mem_filterMap]
     constructor
@@ -154,17 +156,19 @@ theorem findParent_list_spec (t : T) (rs : List Row) (h : 2 ≤ rs.length) :
     · rintro ⟨cs, hcs, hi⟩
       exact ⟨cs.map some, List.mem_map.mpr ⟨cs, hcs, rfl⟩, by rw [firstOf_map_some]; exact hi⟩
 
-/-- `find_child_objects([r0, r1, …])` = ascending duplicate-free list of the last components of
-the chains -/
+/-- `find_child_objects([r0, r1, …], reverse)` = ascending duplicate-free list of the last
+components of the chains, reversed on request -/
 theorem findChild_list_spec (t : T) (rs : List Row) (h : 2 ≤ rs.length) :
     ∃ l, findChildObjectsList t rs false = .ok l ∧ l.Pairwise (· < ·) ∧ l.Nodup ∧
-      ∀ i, i ∈ l ↔ ∃ cs ∈ chains t rs, cs.getLast? = some i := by
+      (∀ i, i ∈ l ↔ ∃ cs ∈ chains t rs, cs.getLast? = some i) ∧
+      findChildObjectsList t rs true = .ok l.reverse := by
   have hb := branches_eq_chains t rs h false
   match rs, h with
   | r0 :: r1 :: rest, _ =>
     refine ⟨sortDedup (((chains t (r0 :: r1 :: rest)).map (·.map some)).filterMap lastOf),
       by simp only [findChildObjectsList, Bool.false_eq_true, if_false, hb], sortDedup_sorted _,
-      sorted_nodup (sortDedup_sorted _), ?_⟩
+      sorted_nodup (sortDedup_sorted _), ?_,
+      by simp only [findChildObjectsList, Bool.false_eq_true, if_false, if_true, hb]⟩
     intro i
     rw [mem_sortDedup, List.mem_filterMap]
     constructor
@@ -174,16 +178,14 @@ theorem findChild_list_spec (t : T) (rs : List Row) (h : 2 ≤ rs.length) :
     · rintro ⟨cs, hcs, hi⟩
       exact ⟨cs.map some, List.mem_map.mpr ⟨cs, hcs, rfl⟩, by rw [lastOf_map_some]; exact hi⟩
 
-/-- a list of one expression is `find_objects` (a chain of length 1 is a matching line); the
-empty list is refused; `escape_chars` makes the list forms raise (`re.escape(list)`) -/
-theorem list_form_short (t : T) (r : Row) :
-    findParentObjectsList t [r] false = .ok (findObjects t r false) ∧
-    findChildObjectsList t [r] false = .ok (findObjects t r false) ∧
-    findParentObjectsList t [] false = .error .valueError ∧
-    findChildObjectsList t [] false = .error .valueError ∧
-    (∀ rs, findParentObjectsList t rs true = .error .typeError) ∧
-    (∀ rs, findChildObjectsList t rs true = .error .typeError) :=
-  ⟨rfl, rfl, rfl, rfl, fun _ => rfl, fun _ => rfl⟩
+/-- a list of one expression is `find_objects` with the same `reverse` (a chain of length 1 is a
+matching line); the empty list is refused -/
+theorem list_form_short (t : T) (r : Row) (rev : Bool) :
+    findParentObjectsList t [r] rev = .ok (findObjects t r rev) ∧
+    findChildObjectsList t [r] rev = .ok (findObjects t r rev) ∧
+    findParentObjectsList t [] rev = .error .valueError ∧
+    findChildObjectsList t [] rev = .error .valueError :=
+  ⟨rfl, rfl, rfl, rfl⟩
 
 /-! ### two-argument forms -/
 
@@ -219,65 +221,78 @@ theorem woChild_spec (t : T) (prow crow : Row) (recurse : Bool) (hf : recurse = 
     exact and_assoc
   · simp [findParentObjectsWoChild2, findObjects, List.filter_reverse]
 
-/-- `find_child_objects(p, c, recurse)`: exactly the lines matching `c` that are a direct /
-any-depth child of some line matching `p`; ascending and duplicate free whatever `reverse` is
-(the code sorts a set; the flag has no effect) -/
-theorem findChild_two_arg_spec (t : T) (prow crow : Row) (recurse rev : Bool)
+/-- `find_child_objects(p, c, recurse, reverse)`: exactly the lines matching `c` that are a direct /
+any-depth child of some line matching `p`; ascending and duplicate free, reversed on request -/
+theorem findChild_two_arg_spec (t : T) (prow crow : Row) (recurse : Bool)
     (hf : recurse = true → Forest t) :
-    (findChildObjects2 t prow crow recurse rev).Pairwise (· < ·) ∧
-    (findChildObjects2 t prow crow recurse rev).Nodup ∧
-    (∀ c, c ∈ findChildObjects2 t prow crow recurse rev ↔
-      hit crow c = true ∧ ∃ p, p < t.size ∧ hit prow p = true ∧ Below t recurse p c) := by
-  refine ⟨sortDedup_sorted _, sorted_nodup (sortDedup_sorted _), ?_⟩
-  intro c
-  have hm : ∀ p, p ∈ findObjects t prow rev ↔ p < t.size ∧ hit prow p = true := by
-    intro p
-    cases rev with
-    | false => exact mem_findLineObj t prow p
-    | true => exact List.mem_reverse.trans (mem_findLineObj t prow p)
-  simp only [findChildObjects2, mem_sortDedup, List.mem_flatMap, hm,
-    mem_reSearchChildren t recurse hf]
-  constructor
-  · rintro ⟨p, ⟨h1, h2⟩, h3, h4⟩; exact ⟨h4, p, h1, h2, h3⟩
-  · rintro ⟨h4, p, h1, h2, h3⟩; exact ⟨p, ⟨h1, h2⟩, h3, h4⟩
+    (findChildObjects2 t prow crow recurse false).Pairwise (· < ·) ∧
+    (findChildObjects2 t prow crow recurse false).Nodup ∧
+    (∀ c, c ∈ findChildObjects2 t prow crow recurse false ↔
+      hit crow c = true ∧ ∃ p, p < t.size ∧ hit prow p = true ∧ Below t recurse p c) ∧
+    findChildObjects2 t prow crow recurse true =
+      (findChildObjects2 t prow crow recurse false).reverse := by
+  refine ⟨sortDedup_sorted _, sorted_nodup (sortDedup_sorted _), ?_, ?_⟩
+  · intro c
+    simp only [findChildObjects2, Bool.false_eq_true, if_false, mem_sortDedup, List.mem_flatMap,
+      findObjects, mem_findLineObj, mem_reSearchChildren t recurse hf]
+    constructor
+    · rintro ⟨p, ⟨h1, h2⟩, h3, h4⟩; exact ⟨h4, p, h1, h2, h3⟩
+    · rintro ⟨h4, p, h1, h2, h3⟩; exact ⟨p, ⟨h1, h2⟩, h3, h4⟩
+  · simp only [findChildObjects2, Bool.false_eq_true, if_false, if_true, findObjects]
+    congr 1
+    apply sorted_ext _ _ (sortDedup_sorted _) (sortDedup_sorted _)
+    intro c
+    simp only [mem_sortDedup, List.mem_flatMap, List.mem_reverse]
 
 /-! ### the list form and the two-argument form agree (at `recurse := false`) -/
 
-/-- `find_parent_objects([p, c])` = `find_parent_objects(p, c, recurse=False)` -/
-theorem list_form_agrees_parent (t : T) (p c : Row) :
-    findParentObjectsList t [p, c] false = .ok (findParentObjects2 t p c false false) := by
-  obtain ⟨l, hl, hs, _, hm⟩ := findParent_list_spec t [p, c] (by simp)
-  obtain ⟨hs2, hm2, _⟩ := findParent_two_arg_spec t p c false (by simp)
-  rw [hl]
-  congr 1
-  apply sorted_ext _ _ hs hs2
-  intro i
-  rw [hm, hm2]
-  simp only [mem_chains, isChain_pair, Below, Bool.false_eq_true, if_false]
-  constructor
-  · rintro ⟨cs, ⟨i', k, rfl, h1, h2, h3, h4⟩, hh⟩
-    simp at hh; subst hh
-    exact ⟨h1, h2, k, h3, h4⟩
-  · rintro ⟨h1, h2, k, h3, h4⟩
-    exact ⟨[i, k], ⟨i, k, rfl, h1, h2, h3, h4⟩, rfl⟩
+/-- `find_parent_objects([p, c], reverse)` = `find_parent_objects(p, c, recurse=False, reverse)`,
+for either value of `reverse` and for rows computed under any flag reading (the same
+`escape_chars` / `ignore_ws` treatment is applied to the expressions in both forms, so both
+consult the same rows `p`, `c`) -/
+theorem list_form_agrees_parent (t : T) (p c : Row) (rev : Bool) :
+    findParentObjectsList t [p, c] rev = .ok (findParentObjects2 t p c false rev) := by
+  obtain ⟨l, hl, hs, _, hm, hr⟩ := findParent_list_spec t [p, c] (by simp)
+  obtain ⟨hs2, hm2, hr2⟩ := findParent_two_arg_spec t p c false (by simp)
+  have hEq : l = findParentObjects2 t p c false false := by
+    apply sorted_ext _ _ hs hs2
+    intro i
+    rw [hm, hm2]
+    simp only [mem_chains, isChain_pair, Below, Bool.false_eq_true, if_false]
+    constructor
+    · rintro ⟨cs, ⟨i', k, rfl, h1, h2, h3, h4⟩, hh⟩
+      simp at hh; subst hh
+      exact ⟨h1, h2, k, h3, h4⟩
+    · rintro ⟨h1, h2, k, h3, h4⟩
+      exact ⟨[i, k], ⟨i, k, rfl, h1, h2, h3, h4⟩, rfl⟩
+  cases rev with
+  | false => rw [hl, hEq]
+  | true => rw [hr, hr2, hEq]
 
-/-- `find_child_objects([p, c])` = `find_child_objects(p, c, recurse=False)` -/
+/-- `find_child_objects([p, c], reverse)` = `find_child_objects(p, c, recurse=False, reverse)` -/
 theorem list_form_agrees_child (t : T) (p c : Row) (rev : Bool) :
-    findChildObjectsList t [p, c] false = .ok (findChildObjects2 t p c false rev) := by
-  obtain ⟨l, hl, hs, _, hm⟩ := findChild_list_spec t [p, c] (by simp)
-  obtain ⟨hs2, _, hm2⟩ := findChild_two_arg_spec t p c false rev (by simp)
-  rw [hl]
-  congr 1
-  apply sorted_ext _ _ hs hs2
-  intro k
-  rw [hm, hm2]
-  simp only [mem_chains, isChain_pair, Below, Bool.false_eq_true, if_false]
-  constructor
-  · rintro ⟨cs, ⟨i, k', rfl, h1, h2, h3, h4⟩, hh⟩
-    simp at hh; subst hh
-    exact ⟨h4, i, h1, h2, h3⟩
-  · rintro ⟨h4, i, h1, h2, h3⟩
-    exact ⟨[i, k], ⟨i, k, rfl, h1, h2, h3, h4⟩, rfl⟩
+    findChildObjectsList t [p, c] rev = .ok (findChildObjects2 t p c false rev) := by
+  obtain ⟨l, hl, hs, _, hm, hr⟩ := findChild_list_spec t [p, c] (by simp)
+  obtain ⟨hs2, _, hm2, hr2⟩ := findChild_two_arg_spec t p c false (by simp)
+  have hEq : l = findChildObjects2 t p c false false := by
+    apply sorted_ext _ _ hs hs2
+    intro k
+    rw [hm, hm2]
+    simp only [mem_chains, isChain_pair, Below, Bool.false_eq_true, if_false]
+    constructor
+    · rintro ⟨cs, ⟨i, k', rfl, h1, h2, h3, h4⟩, hh⟩
+      simp at hh; subst hh
+      exact ⟨h4, i, h1, h2, h3⟩
+    · rintro ⟨h4, i, h1, h2, h3⟩
+      exact ⟨[i, k], ⟨i, k, rfl, h1, h2, h3, h4⟩, rfl⟩
+  cases rev with
+  | false => rw [hl, hEq]
+  | true => rw [hr, hr2, hEq]
+
+/-- a list of one expression agrees with `find_objects` under the same `reverse` -/
+theorem list_form_agrees_single (t : T) (r : Row) (rev : Bool) :
+    findParentObjectsList t [r] rev = findObjectsList t [r] rev ∧
+    findChildObjectsList t [r] rev = findObjectsList t [r] rev := ⟨rfl, rfl⟩
 
 /-- **Finding F07.**  Full statement (false of the code and of the model):
 `∀ p c p1, findParentObjectsWoChildList t [p, c] p1 false rev = .ok (findParentObjectsWoChild2 t p c false rev)`.
@@ -311,28 +326,14 @@ theorem rootSearch_spec (t : T) (r : Row) :
       mem_findLineObj, beq_iff_eq]
     exact and_assoc
 
-/-- **Finding FC04d.**  Full statement (false of the code and of the model): the equivalence below
-without the hypothesis `hne`.  `has_child_with` tests the truthiness of the *text* returned by
-`re_search`, so it is right exactly when no matching line has the empty text. -/
-theorem hasChildWith_spec_partial (t : T) (p : Nat) (crow : Row) (allCh : Bool)
-    (hf : allCh = true → Forest t)
-    (hne : ∀ c, hit crow c = true → t.texts.getD c [] ≠ []) :
+/-- `obj.has_child_with(r, all_children)` is true exactly when some direct / any-depth child
+matches — whatever the texts are (after the repair FC04d a matching `""` child counts) -/
+theorem hasChildWith_spec (t : T) (p : Nat) (crow : Row) (allCh : Bool)
+    (hf : allCh = true → Forest t) :
     hasChildWith t p crow allCh = true ↔ ∃ c, Below t allCh p c ∧ hit crow c = true := by
-  unfold hasChildWith
-  have hfil : (offspring t allCh p).filter (fun c => hit crow c && !(t.texts.getD c []).isEmpty) =
-      reSearchChildren t p crow allCh := by
-    unfold reSearchChildren
-    apply List.filter_congr
-    intro c _
-    cases hc : hit crow c with
-    | false => rfl
-    | true =>
-      have := hne c hc
-      cases hx : t.texts.getD c [] with
-      | nil => exact absurd hx this
-      | cons _ _ => rfl
-  rw [hfil, ← reSearchChildren_nonempty t allCh hf]
-  cases reSearchChildren t p crow allCh <;> simp
+  rw [← reSearchChildren_nonempty t allCh hf]
+  unfold hasChildWith reSearchChildren
+  cases (offspring t allCh p).filter (hit crow) <;> simp
 
 /-! ### non-vacuity: a concrete tree
 
@@ -371,14 +372,15 @@ example : findObjects exT rowB true = [3, 1] := by decide
 example : findParentObjectsList exT [rowA, rowB] false = .ok [0] := by rfl
 example : findChildObjectsList exT [rowA, rowB] false = .ok [1, 3] := by rfl
 example : findParentObjects2 exT rowA rowC true false = [0] ∧ findParentObjects2 exT rowA rowC false false = [] := by decide
-example : findChildObjects2 exT rowA rowC true true = [2] := by decide
+example : findChildObjects2 exT rowA rowB false true = [3, 1] := by decide
+example : findChildObjectsList exT [rowA, rowB] true = .ok [3, 1] := by rfl
 example : findParentObjectsWoChild2 exT rowA rowB false true = [4] := by decide
 example : reSearchChildrenRoot exT rowB false = [] ∧ reSearchChildrenRoot exT rowB true = [1, 3] := by decide
 /-- F07 witness: with `p1` ≠ the row of `c` the list form differs from the two-argument form -/
 example : findParentObjectsWoChildList exT [rowA, rowB] (some rowC) false false = .ok [0, 4] ∧
     findParentObjectsWoChild2 exT rowA rowB false false = [4] := ⟨by rfl, by decide⟩
-/-- FC04d witness: line 4 has a child matching `^$`, `has_child_with` says no -/
-example : hasChildWith exT 4 rowE false = false ∧ (5 ∈ children exT 4 ∧ hit rowE 5 = true) := by decide
+/-- line 4 has a child with the empty text matching `^$`; it counts -/
+example : hasChildWith exT 4 rowE false = true ∧ (5 ∈ children exT 4 ∧ hit rowE 5 = true) := by decide
 example : hasChildWith exT 0 rowC true = true ∧ hasChildWith exT 0 rowC false = false := by decide
 
 end Ccp.C04
